@@ -16,6 +16,7 @@ func checkC12(c *Ctx, r *Report) {
 	ruleParserProtocol(c, r, "prog-handoff")
 	c.ruleNoGlobalWrites(r, "no-global-writes")
 	ruleExecuteReadonly(c, r, "execute-readonly")
+	ruleWriterPassThrough(c, r, "writer-pass-through")
 	ruleChunkImmutable(c, r, "immutable-chunks")
 	ruleResultAppendOnly(c, r, "result-not-aliased")
 	r.rule("vm-per-call", 1, "execute builds its vm with a composite literal (a fresh machine per call)")
